@@ -47,6 +47,7 @@ func Is(err, reference error) bool {
 	}
 
 	isComparable := reflect.TypeOf(reference).Comparable()
+	isComparable = isComparable && canCompare(reference)
 
 	// Direct reference comparison is the fastest, and most
 	// likely to be true, so do this first.
@@ -89,6 +90,22 @@ func Is(err, reference error) bool {
 		}
 	}
 	return false
+}
+
+// canCompare returns false if comparing the reference with == would
+// panic. A value whose type is comparable can still hold a value of a
+// non-comparable type in an interface-typed field (e.g. a struct-typed
+// wrapper whose cause is a struct containing a slice); the comparison
+// of such values panics at run time.
+func canCompare(reference error) (ok bool) {
+	defer func() {
+		if r := recover(); r != nil {
+			ok = false
+		}
+	}()
+	other := reference
+	_ = other == reference
+	return true
 }
 
 func tryDelegateToIsMethod(err, reference error) bool {
@@ -170,6 +187,7 @@ func IsAny(err error, references ...error) bool {
 				continue
 			}
 			isComparable := reflect.TypeOf(refErr).Comparable()
+			isComparable = isComparable && canCompare(refErr)
 			if isComparable && c == refErr {
 				return true
 			}
